@@ -266,7 +266,10 @@ Definition load (i : nat) (k : N) (s : st) : st :=
   match lookup k s with
   | Some o =>
       if expired (heap s o) then
-        (* refresh of an expired hit: autoflush, then SELECT; the row is gone if the flush deleted it *)
+        (* refresh of an expired hit: autoflush, then SELECT; the row is gone if the flush deleted it
+           (ObjectDeletedError -> None).  If the flush deleted the instance but the row survives (row switch: a
+           pending object with the SAME primary key) get_from_identity returns identity_map.get(key); primary
+           keys of new objects are fresh here, so that branch is outside this model *)
         let s1 := set_local None (rc_collect (flush (set_local (Some o) s))) in
         if in_map (heap s1 o) then slot_set i (Some o) (upd o (fun ob => set_in_val true (set_expired false ob)) s1)
         else slot_set i None s1
